@@ -255,6 +255,14 @@ def check_segments(ctx):
     got = [roles.canon(e, dg).replace(" ", "") for e in arrs[1].elts] if arrs and isinstance(arrs[1], ast.List) else []
     exp = ["self._vectorize_points()[0]", "self._vectorize_points()[1]", "self._vectorize_weights()", "self._vectorize_indices()[0]", "self._vectorize_indices()[1]",
            "self._vectorize_offsets()[0]", "self._vectorize_offsets()[1]", "self._vectorize_offsets()[2]", "self._get_number_of_quad_points()"]
+    if got != exp:
+        # arrays that pass through module-level state (a memo table) have no provenance this rule can read: whether the
+        # table returns what was computed for *this* request is C18's FX-PROCESS-STATE, not a stacking-order violation
+        from . import state
+
+        ext = sorted(set(state.module_state(m.tree)) & {n.id for n in ast.walk(fg) if isinstance(n, ast.Name)})
+        if ext and any(x in g for x in ext for g in got):
+            raise AnalysisError("get_arrays: arrays are taken from module-level table(s) %s; the order of the returned arrays cannot be read off the source" % ext)
     r2.check(got == exp, "get_arrays order", SA, CLS + ".get_arrays", fg.lineno, "get_arrays order %s" % got, "get_arrays returns %s" % got)
     # return tuples of the _vectorize_* methods
     for meth, names in (("_vectorize_offsets", ["test_offsets", "trial_offsets", "weights_offsets"]), ("_vectorize_indices", ["test_indices", "trial_indices"])):
